@@ -1,7 +1,10 @@
 package main
 
-// One long-lived `z3 -in` process.  Terms are emitted once as global define-funs; a query is a
-// check-sat-assuming over the names of the path-condition conjuncts plus the goal literal.
+// One long-lived `z3 -in` process.  Every query is sent as a self-contained script after a
+// (reset): z3's one-shot bit-vector tactic is far faster on these formulas than its incremental
+// core.  Before the solver is asked, a query is sliced to the path-condition conjuncts that share
+// symbols with the goal, then looked up in (1) the exact cache, (2) the known-unsat subsets,
+// (3) recently returned models.
 
 import (
 	"bufio"
@@ -26,28 +29,41 @@ const (
 func (r Result) String() string { return [...]string{"unsat", "sat", "unknown"}[r] }
 
 type Solver struct {
-	cmd      *exec.Cmd
-	in       io.WriteCloser
-	out      *bufio.Reader
-	defined  map[*Term]bool
-	declared map[string]bool
-	cache    map[string]Result
-	log      *os.File
-	bin      string
+	cmd  *exec.Cmd
+	in   io.WriteCloser
+	out  *bufio.Reader
+	log  *os.File
+	bin  string
+	cvc5 bool
 
-	Queries    int
-	CacheHits  int
-	Seconds    float64
-	Unknowns   int
-	Errors     []string
-	TimeoutMS  int
-	constArrs  map[string][]byte
-	arrDeclare map[string]bool
+	cache     map[string]Result
+	unsatSets [][]*Term
+	models    []*cachedModel
+	lastModel *Model
+	wantModel bool
+	constArrs map[string][]byte
+	symMemo   map[*Term][]int32
+	symIDs    map[string]int32
+	slowN     int
+
+	Queries   int
+	CacheHits int
+	CoreHits  int
+	ModelHits int
+	Seconds   float64
+	Unknowns  int
+	Errors    []string
+	TimeoutMS int
+}
+
+type cachedModel struct {
+	m    *Model
+	memo map[*Term]uint64
 }
 
 func NewSolver(bin string, timeoutMS int, logPath string) (*Solver, error) {
-	s := &Solver{defined: map[*Term]bool{}, declared: map[string]bool{}, cache: map[string]Result{}, TimeoutMS: timeoutMS, bin: bin,
-		constArrs: map[string][]byte{}, arrDeclare: map[string]bool{}}
+	s := &Solver{cache: map[string]Result{}, TimeoutMS: timeoutMS, bin: bin, cvc5: strings.Contains(bin, "cvc5"),
+		constArrs: map[string][]byte{}, symMemo: map[*Term][]int32{}, symIDs: map[string]int32{}}
 	if logPath != "" {
 		f, err := os.Create(logPath)
 		if err != nil {
@@ -63,7 +79,7 @@ func NewSolver(bin string, timeoutMS int, logPath string) (*Solver, error) {
 
 func (s *Solver) start() error {
 	args := []string{"-in"}
-	if strings.Contains(s.bin, "cvc5") {
+	if s.cvc5 {
 		args = []string{"--incremental", "--lang=smt2", "--produce-models", fmt.Sprintf("--tlimit-per=%d", s.TimeoutMS)}
 	}
 	s.cmd = exec.Command(s.bin, args...)
@@ -81,12 +97,6 @@ func (s *Solver) start() error {
 	}
 	s.in = in
 	s.out = bufio.NewReaderSize(out, 1<<20)
-	if strings.Contains(s.bin, "cvc5") {
-		s.send("(set-logic ALL)")
-	} else {
-		s.send("(set-option :produce-models true)")
-		s.send(fmt.Sprintf("(set-option :timeout %d)", s.TimeoutMS))
-	}
 	return nil
 }
 
@@ -112,7 +122,7 @@ func (s *Solver) send(line string) {
 // RegisterConstArray makes the content of a constant byte array known to the solver.
 func (s *Solver) RegisterConstArray(name string, data []byte) { s.constArrs[name] = data }
 
-func (s *Solver) ref(t *Term) string {
+func termRef(t *Term) string {
 	switch t.Op {
 	case OpConst, OpBConst, OpVar, OpBVar:
 		return smtHead(t, nil)
@@ -121,72 +131,6 @@ func (s *Solver) ref(t *Term) string {
 		return smtName(t.Name)
 	}
 	return "t" + strconv.Itoa(t.ID)
-}
-
-// define emits declarations/definitions for t and everything below it (iteratively, post-order).
-func (s *Solver) define(root *Term) {
-	type fr struct {
-		t *Term
-		i int
-	}
-	stack := []fr{{root, 0}}
-	for len(stack) > 0 {
-		f := &stack[len(stack)-1]
-		t := f.t
-		if s.defined[t] {
-			stack = stack[:len(stack)-1]
-			continue
-		}
-		if f.i < len(t.Args) {
-			a := t.Args[f.i]
-			f.i++
-			if !s.defined[a] {
-				stack = append(stack, fr{a, 0})
-			}
-			continue
-		}
-		stack = stack[:len(stack)-1]
-		s.defined[t] = true
-		switch t.Op {
-		case OpConst, OpBConst:
-		case OpVar, OpBVar:
-			if !s.declared[t.Name] {
-				s.declared[t.Name] = true
-				s.send(fmt.Sprintf("(declare-const %s %s)", smtName(t.Name), sortOf(t.W)))
-			}
-		case OpSelect:
-			if !s.arrDeclare[t.Name] {
-				s.arrDeclare[t.Name] = true
-				s.send(fmt.Sprintf("(declare-const %s (Array (_ BitVec 64) (_ BitVec 8)))", smtName(t.Name)))
-				if data, ok := s.constArrs[t.Name]; ok {
-					for i, b := range data {
-						s.send(fmt.Sprintf("(assert (= (select %s %s) %s))", smtName(t.Name), bvLit(64, uint64(i)), bvLit(8, uint64(b))))
-					}
-				}
-			}
-			s.send(fmt.Sprintf("(define-fun t%d () %s %s)", t.ID, sortOf(t.W), smtHead(t, s.ref)))
-		case OpUF:
-			key := "uf:" + t.Name
-			if !s.declared[key] {
-				s.declared[key] = true
-				var sb strings.Builder
-				for _, a := range t.Args {
-					sb.WriteString(sortOf(a.W) + " ")
-				}
-				s.send(fmt.Sprintf("(declare-fun %s (%s) %s)", smtName(t.Name), sb.String(), sortOf(t.W)))
-			}
-			if len(t.Args) > 0 {
-				s.send(fmt.Sprintf("(define-fun t%d () %s %s)", t.ID, sortOf(t.W), smtHead(t, s.ref)))
-			}
-		default:
-			s.send(fmt.Sprintf("(define-fun t%d () %s %s)", t.ID, sortOf(t.W), smtHead(t, s.ref)))
-		}
-	}
-}
-
-func (s *Solver) readLine() (string, error) {
-	line, err := s.out.ReadString('\n')
-	return strings.TrimSpace(line), err
 }
 
 // readSexp reads one complete s-expression (possibly spanning lines) or an atom line.
@@ -222,23 +166,136 @@ func (s *Solver) readSexp() (string, error) {
 	}
 }
 
-// Check decides pc ∧ goal.  pc and goal are boolean terms.
+// symbols returns the sorted ids of the free symbols (variables, arrays, UFs) of t.
+func (s *Solver) symbols(t *Term) []int32 {
+	if r, ok := s.symMemo[t]; ok {
+		return r
+	}
+	var r []int32
+	id := func(k string) int32 {
+		v, ok := s.symIDs[k]
+		if !ok {
+			v = int32(len(s.symIDs) + 1)
+			s.symIDs[k] = v
+		}
+		return v
+	}
+	switch t.Op {
+	case OpConst, OpBConst:
+	case OpVar, OpBVar:
+		r = []int32{id("v:" + t.Name)}
+	default:
+		set := map[int32]bool{}
+		if t.Op == OpSelect {
+			set[id("a:"+t.Name)] = true
+		}
+		if t.Op == OpUF {
+			set[id("f:"+t.Name)] = true
+		}
+		for _, a := range t.Args {
+			for _, x := range s.symbols(a) {
+				set[x] = true
+			}
+		}
+		r = make([]int32, 0, len(set))
+		for x := range set {
+			r = append(r, x)
+		}
+		sort.Slice(r, func(i, j int) bool { return r[i] < r[j] })
+	}
+	s.symMemo[t] = r
+	return r
+}
+
+// slice keeps the conjuncts of pc that are (transitively) connected to goal through shared symbols.
+func (s *Solver) slice(pc []*Term, goal *Term) []*Term {
+	if len(pc) == 0 {
+		return nil
+	}
+	live := map[int32]bool{}
+	for _, x := range s.symbols(goal) {
+		live[x] = true
+	}
+	used := make([]bool, len(pc))
+	changed := true
+	for changed {
+		changed = false
+		for i, p := range pc {
+			if used[i] {
+				continue
+			}
+			syms := s.symbols(p)
+			hit := len(syms) == 0
+			for _, x := range syms {
+				if live[x] {
+					hit = true
+					break
+				}
+			}
+			if hit {
+				used[i] = true
+				changed = true
+				for _, x := range syms {
+					live[x] = true
+				}
+			}
+		}
+	}
+	out := make([]*Term, 0, len(pc))
+	for i, p := range pc {
+		if used[i] {
+			out = append(out, p)
+		}
+	}
+	return out
+}
+
+func dedupeLits(pc []*Term, goal *Term) ([]*Term, map[*Term]bool, bool) {
+	lits := make([]*Term, 0, len(pc)+1)
+	seen := make(map[*Term]bool, len(pc)+1)
+	add := func(p *Term) bool {
+		if p == TTrue || seen[p] {
+			return true
+		}
+		if p == TFalse || seen[Not(p)] {
+			return false
+		}
+		seen[p] = true
+		lits = append(lits, p)
+		return true
+	}
+	for _, p := range pc {
+		if !add(p) {
+			return nil, nil, false
+		}
+	}
+	if !add(goal) {
+		return nil, nil, false
+	}
+	return lits, seen, true
+}
+
+// Check decides pc ∧ goal (pc is assumed satisfiable on its own).
 func (s *Solver) Check(pc []*Term, goal *Term) Result {
+	return s.check(pc, goal, true)
+}
+
+func (s *Solver) check(pc []*Term, goal *Term, doSlice bool) Result {
 	if goal == TFalse {
 		return Unsat
 	}
-	lits := make([]*Term, 0, len(pc)+1)
-	for _, p := range pc {
-		if p == TTrue {
-			continue
-		}
-		if p == TFalse {
-			return Unsat
-		}
-		lits = append(lits, p)
+	if doSlice && goal != TTrue {
+		pc = s.slice(pc, goal)
 	}
-	if goal != TTrue {
-		lits = append(lits, goal)
+	lits, seen, ok := dedupeLits(pc, goal)
+	if !ok {
+		return Unsat
+	}
+	if len(lits) == 0 {
+		if s.wantModel {
+			s.lastModel = &Model{Vars: map[string]uint64{}, Arrays: map[string]map[uint64]uint64{}, UFs: map[string]map[string]uint64{}, ConstArrs: s.constArrs}
+		}
+		return Sat
 	}
 	ids := make([]int, len(lits))
 	for i, l := range lits {
@@ -246,26 +303,61 @@ func (s *Solver) Check(pc []*Term, goal *Term) Result {
 	}
 	sort.Ints(ids)
 	var kb strings.Builder
-	last := -1
 	for _, id := range ids {
-		if id != last {
-			kb.WriteString(strconv.Itoa(id))
-			kb.WriteByte(',')
-		}
-		last = id
+		kb.WriteString(strconv.Itoa(id))
+		kb.WriteByte(',')
 	}
 	key := kb.String()
 	if r, ok := s.cache[key]; ok {
-		s.CacheHits++
-		return r
+		if r != Sat || !s.wantModel {
+			s.CacheHits++
+			return r
+		}
 	}
-	var names []string
-	for _, l := range lits {
-		s.define(l)
-		names = append(names, s.litName(l))
+	for _, us := range s.unsatSets {
+		if len(us) > len(lits) {
+			continue
+		}
+		sub := true
+		for _, c := range us {
+			if !seen[c] {
+				sub = false
+				break
+			}
+		}
+		if sub {
+			s.CoreHits++
+			s.cache[key] = Unsat
+			return Unsat
+		}
+	}
+	for i := len(s.models) - 1; i >= 0; i-- {
+		m := s.models[i]
+		okm := true
+		for j := len(lits) - 1; j >= 0; j-- {
+			if m.m.eval(lits[j], m.memo) == 0 {
+				okm = false
+				break
+			}
+		}
+		if okm {
+			s.ModelHits++
+			s.cache[key] = Sat
+			s.lastModel = m.m
+			s.models = append(append(s.models[:i:i], s.models[i+1:]...), m)
+			return Sat
+		}
 	}
 	t0 := time.Now()
-	s.send("(check-sat-assuming (" + strings.Join(names, " ") + "))")
+	s.send("(reset)")
+	if !s.cvc5 {
+		s.send("(set-option :produce-models true)")
+		s.send(fmt.Sprintf("(set-option :timeout %d)", s.TimeoutMS))
+	} else {
+		s.send("(set-logic ALL)")
+	}
+	s.send(scriptBody(lits, s.constArrs))
+	s.send("(check-sat)")
 	line, err := s.readSexp()
 	el := time.Since(t0).Seconds()
 	s.Seconds += el
@@ -292,58 +384,52 @@ func (s *Solver) Check(pc []*Term, goal *Term) Result {
 		fmt.Fprintf(s.log, "; -> %s (%.3fs)\n", r, el)
 	}
 	s.cache[key] = r
+	if d := os.Getenv("VSYM_DUMP_SLOW"); d != "" && el > 3 {
+		s.slowN++
+		os.WriteFile(fmt.Sprintf("%s/slow_%d_%s_%.0fs.smt2", d, s.slowN, r, el), []byte(Script(lits[:len(lits)-1], lits[len(lits)-1], s.constArrs)), 0o644)
+	}
+	switch r {
+	case Unsat:
+		s.unsatSets = append(s.unsatSets, lits)
+		if len(s.unsatSets) > 3000 {
+			s.unsatSets = s.unsatSets[1000:]
+		}
+	case Sat:
+		if m := s.fetchModel(lits); m != nil {
+			s.lastModel = m
+			s.models = append(s.models, &cachedModel{m: m, memo: map[*Term]uint64{}})
+			if len(s.models) > 16 {
+				s.models = s.models[1:]
+			}
+		}
+	}
 	return r
 }
 
 func (s *Solver) restart() {
 	s.cmd.Process.Kill()
 	s.cmd.Wait()
-	s.defined = map[*Term]bool{}
-	s.declared = map[string]bool{}
-	s.arrDeclare = map[string]bool{}
 	if err := s.start(); err != nil {
 		fatalf("cannot restart solver: %v", err)
 	}
 }
 
-// litName: boolean atoms usable in check-sat-assuming must be symbols (or their negation).
-func (s *Solver) litName(l *Term) string {
-	switch l.Op {
-	case OpBVar:
-		return smtName(l.Name)
-	case OpBNot:
-		if l.Args[0].Op == OpBVar {
-			return "(not " + smtName(l.Args[0].Name) + ")"
-		}
-	}
-	key := "lit:" + strconv.Itoa(l.ID)
-	name := "p" + strconv.Itoa(l.ID)
-	if !s.declared[key] {
-		s.declared[key] = true
-		s.send(fmt.Sprintf("(declare-const %s Bool)", name))
-		s.send(fmt.Sprintf("(assert (= %s %s))", name, s.ref(l)))
-	}
-	return name
-}
-
-// GetModel must be called right after a Check that returned Sat with the same pc/goal.
+// GetModel returns a model of the whole of pc ∧ goal (which must be satisfiable).
 func (s *Solver) GetModel(pc []*Term, goal *Term) *Model {
-	// force the solver back into the sat state of exactly this query (cache may have answered)
-	var names []string
-	all := append(append([]*Term{}, pc...), goal)
-	for _, l := range all {
-		if l == TTrue {
-			continue
-		}
-		s.define(l)
-		names = append(names, s.litName(l))
-	}
-	s.send("(check-sat-assuming (" + strings.Join(names, " ") + "))")
-	line, _ := s.readSexp()
-	if line != "sat" {
+	s.lastModel = nil
+	s.wantModel = true
+	r := s.check(pc, goal, false)
+	s.wantModel = false
+	if r != Sat {
 		return nil
 	}
-	m := &Model{Vars: map[string]uint64{}, Arrays: map[string]map[uint64]uint64{}, UFs: map[string]map[string]uint64{}}
+	return s.lastModel
+}
+
+// fetchModel reads the values of every variable, array cell and UF point below lits.
+// The solver must be in the sat state of a query over lits.
+func (s *Solver) fetchModel(all []*Term) *Model {
+	m := &Model{Vars: map[string]uint64{}, Arrays: map[string]map[uint64]uint64{}, UFs: map[string]map[string]uint64{}, ConstArrs: s.constArrs}
 	seen := map[*Term]bool{}
 	var vars, sels, ufs []*Term
 	for _, l := range all {
@@ -358,6 +444,7 @@ func (s *Solver) GetModel(pc []*Term, goal *Term) *Model {
 			}
 		})
 	}
+	bad := false
 	get := func(ts []*Term) []uint64 {
 		out := make([]uint64, len(ts))
 		for i := 0; i < len(ts); i += 200 {
@@ -365,7 +452,7 @@ func (s *Solver) GetModel(pc []*Term, goal *Term) *Model {
 			var sb strings.Builder
 			sb.WriteString("(get-value (")
 			for _, t := range ts[i:j] {
-				sb.WriteString(s.ref(t) + " ")
+				sb.WriteString(termRef(t) + " ")
 			}
 			sb.WriteString("))")
 			s.send(sb.String())
@@ -373,6 +460,7 @@ func (s *Solver) GetModel(pc []*Term, goal *Term) *Model {
 			vals := parseGetValue(resp)
 			if len(vals) != j-i {
 				s.Errors = append(s.Errors, "get-value parse: "+resp)
+				bad = true
 				continue
 			}
 			copy(out[i:j], vals)
@@ -412,13 +500,15 @@ func (s *Solver) GetModel(pc []*Term, goal *Term) *Model {
 		}
 		m.UFs[t.Name][sb.String()] = rv[0]
 	}
+	if bad {
+		return nil
+	}
 	return m
 }
 
 // parseGetValue parses "((name val) (name val) ...)" and returns the values in order.
 func parseGetValue(resp string) []uint64 {
 	var out []uint64
-	// tokenise
 	var toks []string
 	i := 0
 	for i < len(resp) {
@@ -445,12 +535,11 @@ func parseGetValue(resp string) []uint64 {
 			i = j
 		}
 	}
-	// expect ( ( X V ) ( X V ) ... ) where X may itself be a parenthesised expr
 	if len(toks) < 2 || toks[0] != "(" {
 		return nil
 	}
 	p := 1
-	skip := func() { // skip one sexp
+	skip := func() {
 		if toks[p] != "(" {
 			p++
 			return
@@ -471,7 +560,6 @@ func parseGetValue(resp string) []uint64 {
 	for p < len(toks) && toks[p] == "(" {
 		p++
 		skip() // the expression
-		// the value
 		v := toks[p]
 		switch {
 		case v == "true":
@@ -507,32 +595,16 @@ func parseGetValue(resp string) []uint64 {
 	return out
 }
 
-// Script renders a standalone SMT-LIB2 script for (pc ∧ goal), for the second-solver diff.
-func Script(pc []*Term, goal *Term, constArrs map[string][]byte) string {
+// scriptBody renders declarations, definitions and one assert per literal.
+func scriptBody(lits []*Term, constArrs map[string][]byte) string {
 	var sb strings.Builder
-	sb.WriteString("(set-logic ALL)\n")
 	defined := map[*Term]bool{}
 	declared := map[string]bool{}
-	var ref func(t *Term) string
-	ref = func(t *Term) string {
-		switch t.Op {
-		case OpConst, OpBConst, OpVar, OpBVar:
-			return smtHead(t, nil)
-		}
-		if t.Op == OpUF && len(t.Args) == 0 {
-			return smtName(t.Name)
-		}
-		return "t" + strconv.Itoa(t.ID)
+	type fr struct {
+		t *Term
+		i int
 	}
-	var def func(t *Term)
-	def = func(t *Term) {
-		if defined[t] {
-			return
-		}
-		defined[t] = true
-		for _, a := range t.Args {
-			def(a)
-		}
+	emit := func(t *Term) {
 		switch t.Op {
 		case OpConst, OpBConst:
 		case OpVar, OpBVar:
@@ -548,7 +620,7 @@ func Script(pc []*Term, goal *Term, constArrs map[string][]byte) string {
 					fmt.Fprintf(&sb, "(assert (= (select %s %s) %s))\n", smtName(t.Name), bvLit(64, uint64(i)), bvLit(8, uint64(b)))
 				}
 			}
-			fmt.Fprintf(&sb, "(define-fun t%d () %s %s)\n", t.ID, sortOf(t.W), smtHead(t, ref))
+			fmt.Fprintf(&sb, "(define-fun t%d () %s %s)\n", t.ID, sortOf(t.W), smtHead(t, termRef))
 		case OpUF:
 			if !declared["uf:"+t.Name] {
 				declared["uf:"+t.Name] = true
@@ -559,18 +631,42 @@ func Script(pc []*Term, goal *Term, constArrs map[string][]byte) string {
 				fmt.Fprintf(&sb, "(declare-fun %s (%s) %s)\n", smtName(t.Name), as.String(), sortOf(t.W))
 			}
 			if len(t.Args) > 0 {
-				fmt.Fprintf(&sb, "(define-fun t%d () %s %s)\n", t.ID, sortOf(t.W), smtHead(t, ref))
+				fmt.Fprintf(&sb, "(define-fun t%d () %s %s)\n", t.ID, sortOf(t.W), smtHead(t, termRef))
 			}
 		default:
-			fmt.Fprintf(&sb, "(define-fun t%d () %s %s)\n", t.ID, sortOf(t.W), smtHead(t, ref))
+			fmt.Fprintf(&sb, "(define-fun t%d () %s %s)\n", t.ID, sortOf(t.W), smtHead(t, termRef))
 		}
 	}
-	for _, p := range append(append([]*Term{}, pc...), goal) {
-		def(p)
-		fmt.Fprintf(&sb, "(assert %s)\n", ref(p))
+	for _, root := range lits {
+		stack := []fr{{root, 0}}
+		for len(stack) > 0 {
+			f := &stack[len(stack)-1]
+			t := f.t
+			if defined[t] {
+				stack = stack[:len(stack)-1]
+				continue
+			}
+			if f.i < len(t.Args) {
+				a := t.Args[f.i]
+				f.i++
+				if !defined[a] {
+					stack = append(stack, fr{a, 0})
+				}
+				continue
+			}
+			stack = stack[:len(stack)-1]
+			defined[t] = true
+			emit(t)
+		}
+		fmt.Fprintf(&sb, "(assert %s)\n", termRef(root))
 	}
-	sb.WriteString("(check-sat)\n")
 	return sb.String()
+}
+
+// Script renders a standalone SMT-LIB2 script for (pc ∧ goal), for the second-solver diff.
+func Script(pc []*Term, goal *Term, constArrs map[string][]byte) string {
+	lits := append(append([]*Term{}, pc...), goal)
+	return "(set-logic ALL)\n" + scriptBody(lits, constArrs) + "(check-sat)\n"
 }
 
 // RunScript runs a standalone script through another solver binary.
@@ -579,8 +675,7 @@ func RunScript(bin string, args []string, script string, timeout time.Duration) 
 	cmd.Stdin = strings.NewReader(script)
 	done := make(chan struct{})
 	var out []byte
-	var err error
-	go func() { out, err = cmd.CombinedOutput(); close(done) }()
+	go func() { out, _ = cmd.CombinedOutput(); close(done) }()
 	select {
 	case <-done:
 	case <-time.After(timeout):
@@ -590,7 +685,6 @@ func RunScript(bin string, args []string, script string, timeout time.Duration) 
 		<-done
 		return Unknown, "timeout"
 	}
-	_ = err
 	txt := strings.TrimSpace(string(out))
 	if strings.Contains(txt, "(error") {
 		return Unknown, txt
